@@ -56,6 +56,9 @@ func shortFile(p string) string {
 
 func (f *Frame) assertClause(cl Clause, name, kind string, st *State, guard Term, at *ssa.BasicBlock, atI ssa.Instruction) {
 	vc := f.vc
+	if cl.AssumeOnly {
+		return
+	}
 	if ae, ok := cl.Expr.(autoExpr); ok {
 		vc.addObl(&Obligation{Name: name, Kind: kind, Tags: cl.Tags, Goal: ae.f(f), Guard: guard, Src: cl.Src, Where: f.posString(blockPos(at))})
 		return
@@ -74,6 +77,20 @@ func (f *Frame) assumeClause(cl Clause, st *State, guard Term, at *ssa.BasicBloc
 	t, err := env.evalBool(cl.Expr)
 	if err != nil {
 		vc.specError(cl, err)
+		return
+	}
+	if cl.AssumeOnly {
+		vc.assume(Implies(guard, t), "ASSUMED at loop head: "+cl.Src)
+		note := "loop-head assumption in " + f.fn.Name() + ": " + cl.Src
+		seen := false
+		for _, n := range vc.trustNotes {
+			if n == note {
+				seen = true
+			}
+		}
+		if !seen {
+			vc.trustNotes = append(vc.trustNotes, note)
+		}
 		return
 	}
 	vc.assume(Implies(guard, t), cl.Kind+" "+cl.Src)
@@ -164,6 +181,10 @@ func (f *Frame) callWith(in ssa.Instruction, c *ssa.CallCommon, fv Val, args []V
 	// call-site clauses of the enclosing contract (asserts before the call)
 	f.callSiteClauses(in, c, args, o, "asserts", ordName)
 	var res Val
+	if key == "" && !c.IsInvoke() && fv.SubOf != "" {
+		// call of a function value stored in a struct field: "field:<pkg>.<Type>.<field>"
+		key = "field:" + strings.TrimPrefix(fv.SubOf, modulePath+"/")
+	}
 	con := vc.eng.ct.ByKey[key]
 	if len(args) > 0 && args[0].SubOf != "" {
 		// a contract may be specific to the struct field the receiver is embedded in
